@@ -9,6 +9,7 @@ import PromqlVerif.Proofs.Pushdown
 import PromqlVerif.Proofs.DistAgg
 import PromqlVerif.Proofs.TopkPush
 import PromqlVerif.Proofs.DistSound
+import PromqlVerif.Proofs.RemoteProof
 namespace PromqlVerif.C10
 open PromqlVerif Val
 
@@ -368,5 +369,48 @@ theorem model_table_is_source_table :
 
 /-- exact-arithmetic witness of `count_as_sum`'s hypothesis -/
 example : ∀ x y : Int, (ofInt (x + y) : Int) = add (ofInt x) (ofInt y) := fun _ _ => rfl
+
+/-! ### remote execution beyond the optimizer (`execution/remote/operator.go`) -/
+
+/-- **the remote transport is the identity.** The remote operator turns the result of the remote
+query into a storage and reads it with a vector selector whose lookback is 0 (`Remote.lean`). For
+every result whose series have strictly increasing timestamps - which C19 gives for every
+successful result - and every time `t`, the step vector it delivers holds, series by series and in
+the result's order, exactly the points stamped `t`: nothing is invented between two points of a
+series, after its end, or before its start, and nothing is lost. This is what lets `Sem.eval`
+treat `.remote i e` as "the value of `e` on engine `i`" at every step. Tied to the code by the
+`krem` kernel correspondence (the real `remote.NewExecution` over a stub query). -/
+theorem remote_transport_is_identity (m : RMatrix V) (hw : ∀ s ∈ m, IncTs s.2) (t : Int) :
+    remoteRead 0 m t = remoteSpec m t :=
+  remote_read_is_spec m hw t
+
+/-- the same over the whole stream, whatever grid the coordinator steps over -/
+theorem remote_stream_is_identity (m : RMatrix V) (hw : ∀ s ∈ m, IncTs s.2) (grid : List Int) :
+    remoteRun 0 m grid = grid.map fun t => (t, remoteSpec m t) :=
+  remote_run_is_spec m hw grid
+
+/-- per series: a point is shown at `t` iff the result has a point stamped `t`, with its value -/
+theorem remote_series_exact (pts : List (Int × V)) (h : IncTs pts) (t t' : Int) (v : V) :
+    selectSample 0 t (ptsToSamples pts) = some (t', v) ↔ (t' = t ∧ (t, v) ∈ pts) :=
+  select_zero_lookback_exact pts h t t' v
+
+/-- an instant result (the `promql.Vector` branch of the adapter) is always well-formed for it -/
+theorem remote_instant_result_wellformed (v : List (Labels × Int × V)) (t : Int) :
+    remoteRead 0 (vectorAsMatrix v) t = remoteSpec (vectorAsMatrix v) t :=
+  remote_read_is_spec _ (vectorAsMatrix_incTs v) t
+
+/-- non-vacuity: a result with a gap and a series that ends early; at t = 20 only series 0 -/
+example : IncTs [((0 : Int), (1 : Int)), (20, 2)] ∧
+    remoteRead 0 ([([], [(0, 1), (20, 2)]), ([], [(10, 3)])] : RMatrix Int) 20 = [(0, 2)] ∧
+    remoteRead 0 ([([], [(0, 1), (20, 2)]), ([], [(10, 3)])] : RMatrix Int) 30 = [] := by
+  refine ⟨by unfold IncTs; decide, by decide, by decide⟩
+
+/-- why the lookback has to be 0: read with the coordinator's lookback (here 15) the same result
+shows series 1 at t = 20 although it ended at t = 10 - a series kept alive after its end, and not
+what the remote engine computed for t = 20 -/
+example :
+    remoteRead 15 ([([], [(0, 1), (20, 2)]), ([], [(10, 3)])] : RMatrix Int) 20 = [(0, 2), (1, 3)] ∧
+    remoteSpec ([([], [(0, 1), (20, 2)]), ([], [(10, 3)])] : RMatrix Int) 20 = [(0, 2)] := by
+  exact ⟨by decide, by decide⟩
 
 end PromqlVerif.C10
